@@ -59,6 +59,11 @@ var checks = map[string][]HarnessSpec{
 	"C15": {
 		{Name: "verifC15Targets", Pkg: ".", Labels: []string{"checked"}},
 	},
+	"C16": {
+		{Name: "verifC16MinTTL", Pkg: ".", Labels: []string{"minttl"}},
+		{Name: "verifC16Expiry", Pkg: ".", Labels: []string{"hit", "miss"}},
+		{Name: "verifC16Cache", Pkg: ".", Labels: []string{"history", "cache-hit"}},
+	},
 	"SMOKE": {
 		{Name: "verifSmoke", Pkg: "."},
 	},
